@@ -163,7 +163,7 @@ func (x *Exec) writesOf(fn *ssa.Function, blocks map[int]bool, depth int, w *loo
 func (x *Exec) callWrites(cc *ssa.CallCommon, depth int, w *loopWrites) {
 	if cc.IsInvoke() {
 		key := "iface:"
-		if n, ok := cc.Value.Type().(*types.Named); ok {
+		if n, ok := types.Unalias(cc.Value.Type()).(*types.Named); ok {
 			if n.Obj().Pkg() != nil {
 				key += n.Obj().Pkg().Name() + "."
 			}
@@ -516,8 +516,14 @@ func (x *Exec) symbolizeLog(st *State, w *loopWrites) {
 // ncallsTerm: the number of logged calls of name so far.
 func (x *Exec) ncallsTerm(st *State, name string) Term {
 	c := 0
+	first := ""
 	for _, l := range st.log {
 		if l.Callee == name {
+			if first == "" {
+				first = l.Key
+			} else if l.Key != first {
+				fail("call log name %q is ambiguous on this path (%s and %s): qualify the contracts or rename", name, first, l.Key)
+			}
 			c++
 		}
 	}
@@ -536,12 +542,21 @@ func (x *Exec) logLookup(st *State, name string, k Term, j int, res bool) Val {
 	var ents []LogEntry
 	for _, l := range st.log {
 		if l.Callee == name {
+			if len(ents) > 0 && ents[0].Key != l.Key {
+				fail("call log name %q is ambiguous on this path (%s and %s)", name, ents[0].Key, l.Key)
+			}
 			ents = append(ents, l)
 		}
 	}
 	pick := func(l LogEntry) Val {
 		if res {
+			if j >= len(l.Res) {
+				fail("call log of %s has no result %d", name, j)
+			}
 			return l.Res[j]
+		}
+		if j >= len(l.Args) {
+			fail("call log of %s has no argument %d", name, j)
 		}
 		return l.Args[j]
 	}
@@ -551,6 +566,13 @@ func (x *Exec) logLookup(st *State, name string, k Term, j int, res bool) Val {
 			return pick(ents[kv-1])
 		}
 		// no such call on this path: the clause must be guarded by ncalls(); return an unconstrained value
+		if t := x.logPosType(name, j, res); t != nil {
+			switch t.Underlying().(type) {
+			case *types.Tuple, *types.Array:
+			default:
+				return x.freshVal(st, "nocall", t)
+			}
+		}
 		return none()
 	}
 	var gt types.Type
@@ -579,7 +601,9 @@ func (x *Exec) logLookup(st *State, name string, k Term, j int, res bool) Val {
 			// no call on this path: an unconstrained value of the position's static type, if the callee is known
 			if t := x.logPosType(name, j, res); t != nil {
 				switch t.Underlying().(type) {
-				case *types.Slice, *types.Struct, *types.Tuple, *types.Array:
+				case *types.Tuple, *types.Array:
+				case *types.Slice, *types.Struct:
+					return x.freshVal(st, "nocall", t)
 				default:
 					return Sc{x.fresh("nocall", x.sortOf(t)), t}
 				}
